@@ -113,6 +113,11 @@ def getValByTID (firstBlockIndex : Nat) (w : TW) (tid : Nat) : Option Tok :=
     | none => none
     | some toks => toks[e.startIndex + tid - e.startTID]?
 
+/-- a SEQUENCE of `GetValByTID` calls on one `sealedTokenIndex`: the specification is stateless - every answer is a
+function of its TID only, whatever was asked before -/
+def getValSeq (firstBlockIndex : Nat) (w : TW) (tids : List Nat) : List (Option Tok) :=
+  tids.map (getValByTID firstBlockIndex w)
+
 /-! ## `token.Table.SelectEntries`: entries of a field that can hold tokens starting with `hint` -/
 
 /-- Go's `<` on strings (bytes) -/
